@@ -595,7 +595,7 @@ def _same_skeleton(a, b, depth=0) -> bool:
     if type(a) != type(b):  # noqa: E721
         return False
     if isinstance(a, np.ndarray):
-        return a.shape == b.shape
+        return True          # a changed num_qubits legitimately changes array shapes
     if depth > 60:
         return True
     if isinstance(a, dict):          # keys may have been mutated: pair the entries in order
